@@ -89,8 +89,8 @@ def each_fn(p):
     """every function, in id order: on the inlined evaluation the view of each function that is not itself dissolved into
     its callers (a rule that looks for a guard before a sink sees the guard a small helper was given)"""
     for k in sorted(p.raw_fns):
-        if p.inline_mode and p.transparent(p.raw_fns[k].root or k):
-            continue
+        if p.inline_mode and p.raw_fns[k].kind != "closure" and p.transparent(k):
+            continue            # (its closures are bodies of their own and stay)
         yield p.fns.view(k)
 
 
